@@ -22,7 +22,40 @@ def main():
         print("no check for", pid)
         return 2
     try:
-        return mod.run(tier)
+        extra_rc = 0
+        if tier == "thorough" and pid not in ("C17",):
+            # second pass over configuration B (default features, no c-api): cfg-dependent code paths
+            import common
+            common.DRY[0] = True
+            F.CFG_OVERRIDE["A"] = "B"
+            F._loaded.clear()
+            for m in list(sys.modules):
+                if m in ("hazards", "mir"):
+                    getattr(sys.modules[m], "_cache", {}).clear() if hasattr(sys.modules[m], "_cache") else None
+                    getattr(sys.modules[m], "_eff_cache", {}).clear() if hasattr(sys.modules[m], "_eff_cache") else None
+            try:
+                extra_rc = mod.run(tier)
+                if common.EXTRA:
+                    common.EXTRA[-1]["configuration"] = ["B: cargo +nightly check --lib (default features)"]
+            finally:
+                common.DRY[0] = False
+                F.CFG_OVERRIDE.clear()
+                F._loaded.clear()
+                for m in ("hazards", "mir"):
+                    if m in sys.modules:
+                        getattr(sys.modules[m], "_cache", {}).clear() if hasattr(sys.modules[m], "_cache") else None
+                        getattr(sys.modules[m], "_eff_cache", {}).clear() if hasattr(sys.modules[m], "_eff_cache") else None
+        rc = mod.run(tier)
+        if extra_rc and not rc:
+            # a violation that only exists in configuration B
+            p = os.path.join(F.VERIF, "evidence", "violations", pid + "-cfgB.json")
+            import json
+            import common
+            with open(p, "w") as fh:
+                json.dump(common.EXTRA, fh, indent=1)
+            print("VIOLATION property=%s replay=%s" % (pid, p))
+            return 1
+        return rc
     except F.BuildFailed as e:
         print("BUILD-FAILED: %s (neither verdict)" % e)
         return 2
